@@ -279,6 +279,17 @@ fn client_ops(ctx: &Ctx, conn: Arc<Connection>, side: &'static str, parked: Arc<
         });
     }
     {
+        // waits for the peer's transport parameters
+        let c = conn.clone();
+        ctx.track(&format!("{side}.dgram_writer"), later, async move {
+            match c.datagram_writer().await {
+                Ok(Ok(_w)) => R::Ok("datagram writer".into()),
+                Ok(Err(e)) => from_io_err(&e),
+                Err(e) => from_conn_err(&e),
+            }
+        });
+    }
+    {
         let c = conn.clone();
         ctx.track(&format!("{side}.handshaked"), later, async move {
             match c.handshaked().await {
@@ -431,7 +442,7 @@ fn run_case(case: &Case) -> Run {
         p.datagram = 1200;
         p.idle_client_ms = case.idle_client_ms;
         p.idle_server_ms = case.idle_server_ms;
-        let cfg = WorldCfg { client_params: p.client(), server_params: p.server(), log: LogMode::Capture, with_qlog: true, mtu: 1500 };
+        let cfg = WorldCfg { client_params: p.client(), server_params: p.server(), log: LogMode::Capture, with_qlog: true, mtu: 1500, refuse_clients: case.trigger == "peer-refuse", ..Default::default() };
         let w = World::new(case.seed, cfg).await;
         *store2.lock().unwrap() = Some(w.events.clone());
         let lat = Duration::from_millis(case.latency_ms);
@@ -614,6 +625,7 @@ fn judge(rep: &mut Report, case: &Case, run: &Run) {
         let want = match case.trigger.as_str() {
             "local-close" | "peer-close" | "both-close" => Some("Application"),
             "proto-error" => Some("FrameEncoding"),
+            "peer-refuse" => Some("ConnectionRefused"),
             _ => None,
         };
         if let (Some(want), Some(k)) = (want, &t0.kind) {
@@ -722,9 +734,12 @@ fn judge(rep: &mut Report, case: &Case, run: &Run) {
 }
 
 pub fn gen_case(rng: &mut Rng, seed: u64, idx: u64) -> Case {
-    let triggers = ["local-close", "peer-close", "both-close", "proto-error", "blackout", "idle"];
-    let trigger = triggers[(idx % 6) as usize];
+    // peer-refuse: the server's auther refuses the client at the ClientHello, so the peer's CONNECTION_CLOSE
+    // arrives in an Initial packet, before the client knows the server's transport parameters
+    let triggers = ["local-close", "peer-close", "both-close", "proto-error", "blackout", "idle", "peer-refuse"];
+    let trigger = triggers[(idx % 7) as usize];
     let phase = match trigger {
+        "peer-refuse" => "pre",
         "proto-error" | "idle" => "post",
         _ => *rng.pick(&["pre", "mid", "post", "post"]),
     };
